@@ -13,6 +13,7 @@ pub mod refmodel;
 pub mod types;
 pub mod conv_table;
 pub mod gen;
+pub mod judge;
 
 pub use report::{Ctx, Monitor, Report, Violation};
 pub use rng::Rng;
